@@ -37,6 +37,7 @@ void vh_free(void *p) { if (p) --live; free(p); }
 static int pat(int i, int j) { return (int)(((unsigned long)PAT >> (i + j * M)) & 1UL); }
 
 /* reference: elimination tree of the symmetric boolean matrix B (n x n), parent = n for roots */
+static int ref_cnt[N];   /* column counts (diagonal included) of the symbolic Cholesky factor of the last B */
 static void ref_etree(int n, int B[N][N], int parent[N])
 {
     int S[N][N], i, j, k;
@@ -45,6 +46,8 @@ static void ref_etree(int n, int B[N][N], int parent[N])
         for (k = 0; k < j; ++k) if (parent[k] == j) for (i = j + 1; i < n; ++i) if (S[i][k]) S[i][j] = 1;
         parent[j] = n;
         for (i = n - 1; i > j; --i) if (S[i][j]) parent[j] = i;
+        ref_cnt[j] = 1;
+        for (i = j + 1; i < n; ++i) if (S[i][j]) ++ref_cnt[j];
     }
 }
 
@@ -77,8 +80,12 @@ VH_MAIN
         SuperMatrix AC; NCPformat *ac;
         int Bin[N][N], Bout[N][N], par_in[N], par_out[N], post[N + 1], inv_in[N];
         for (i = 0; i < N; ++i) {
+#ifdef PCFIX   /* concrete input permutation, one hex digit per column (larger n) */
+            perm_c[i] = (int)(((unsigned long)PCFIX >> (4 * i)) & 15UL);
+#else
             perm_c[i] = vh_int_in(0, N - 1);
             for (k = 0; k < i; ++k) vh_assume(perm_c[i] != perm_c[k]);
+#endif
             pc_in[i] = perm_c[i];
         }
         o.refact = NO; o.SymmetricMode = SYM ? YES : NO; o.etree = etree; o.colcnt_h = colcnt_h; o.part_super_h = part_super_h;
@@ -112,6 +119,13 @@ VH_MAIN
         ref_etree(N, Bin, par_in);
         ref_etree(N, Bout, par_out);
         for (i = 0; i < N; ++i) vh_assert(etree[i] == par_out[i], "reported etree is the elimination tree of the final A*Pc");
+#if SYM
+        /* symmetric mode: the counts that reserve L's storage are exactly the column counts of the Cholesky factor of
+           Pc (A+A^T) Pc^T, and the columns of one reported supernode nest (struct(k) = {k} + struct(k+1)), so that
+           width * count(first) values hold the whole block */
+        for (i = 0; i < N; ++i) vh_assert(colcnt_h[i] == ref_cnt[i], "symmetric mode: reported column count is the Cholesky column count");
+        { int jj = 0, it, w; for (it = 0; it < N && jj < N; ++it) { w = part_super_h[jj]; for (k = jj; k + 1 < jj + w && k + 1 < N; ++k) vh_assert(ref_cnt[k] == ref_cnt[k + 1] + 1, "symmetric mode: columns of one reported supernode have nested structures"); jj += (w >= 1 ? w : 1); } }
+#endif
         /* the caller's ordering is only composed with a relabelling that preserves the tree */
         for (i = 0; i < N; ++i) post[pc_in[i]] = perm_c[i];
         post[N] = N;
